@@ -671,6 +671,12 @@ func (g *graph) compile(ctx context.Context, opt *graphCompileOptions) (*composa
 			return nil, fmt.Errorf("some node's input or output types cannot be inferred: %v", g.toValidateMap)
 		}
 	}
+	// a pass-through node without any edge or branch never enters toValidateMap
+	for key, node := range g.nodes {
+		if node.inputType() == nil || node.outputType() == nil {
+			return nil, fmt.Errorf("node[%s]'s input or output types cannot be inferred", key)
+		}
+	}
 
 	// the runner gets its own handler lists: compiling again must not change a runnable compiled before
 	handlerPreNode := make(map[string][]handlerPair, len(g.handlerPreNode))
